@@ -8,6 +8,14 @@ TRUST = ("Trusted base: Go 1.26.8 testing/synctest (fake clock, quiescence), the
          "in sim/driver, and third-party modules which run unmodified. A clean batch is evidence over the seeds explored, not proof.")
 
 checks = {
+ "C03": dict(level="exploration", ref="DESIGN.md §4 C03",
+   technique="deterministic differential simulation: one dataset and query pool answered in 3-4 simulated worlds that differ only physically (batching, flush/rotation/restart points, cardinality limit, segment size, GOMAXPROCS, PQS and agile tree primed or off); canonical answers must agree",
+   text="World sets are generated from one seed and each world runs the real node under the simulator; usage-driven accelerators (persistent-query results, agile tree) are primed by issuing the pool before ingestion, pruning paths by rotation; any difference between the canonical answers of two worlds is a violation with both world descriptions in the replay file.",
+   note=TRUST + " Only layout-dependence is reported (a filter wrong identically in every layout is C02). Accelerator files are not yet removed/made unreadable between incarnations."),
+ "C06": dict(level="exploration", ref="DESIGN.md §4 C06",
+   technique="deterministic differential simulation: random command chains over one dataset answered under different chunkings (block and segment counts), numbers of parallel chains (GOMAXPROCS knob) and seeded interleavings of the chain goroutines; answers must be equal",
+   text="The same chain text is executed in 4 worlds whose only differences are how the input stream is cut into blocks and segments, how many parallel chains the query processor clones, and the scheduler's interleaving of those chains; row sequences (where the chain defines an order), row multisets or group maps must be identical.",
+   note=TRUST + " Absolute per-command semantics is not claimed (pure input property). Chains end at the first aggregation or mvexpand (their row order is undefined)."),
  "C04": dict(level="exploration", ref="DESIGN.md §4 C04",
    technique="deterministic simulation: seeded ingest/flush/rotate/restart histories with generated stats / group-by / timechart queries after every step, compared with a reference aggregator over the model's flushed events",
    text="The segmentation of the data (which decides whether ingest-time statistics, running block results or merged segment results answer) is explored by seeded histories on the real node; every stats/timechart answer is compared with a small reference aggregator (exact for count/min/max, 1e-9 for sums and averages, documented generous tolerances for dc and percentiles) and any node panic or hang on a legal query is a violation.",
